@@ -126,6 +126,19 @@ CLAIMED = {
              "lossless reparse and that removing the rule reports utf-8.",
         design_ref="DESIGN.md section 5 C08",
         note="Trusted: TLC, probe characters pairwise distinguishable under the candidate encodings (DESIGN appendix B.5)."),
+    "C16": dict(
+        technique="TLA+ generator machine of the CSS3 selector grammar carrying the by-construction specificity (Selector.tla) with an "
+                  "algorithm layer mirroring New.append's context-dependent counting (invariant CountAsSpecified checked by TLC); all "
+                  "generated selectors x 5 spellings executed on cssutils.css.Selector; SelectorList histories from a second machine "
+                  "(SelList.tla); TLC trace monitors",
+        text="Bounded exhaustive: every selector with <=3 parts/2 compounds (quick) or <=4 parts/3 compounds (thorough) over "
+             "type/universal, id, class, 7 attribute operators, pseudo-class, functional pseudo-class with an+b / ident argument, "
+             "pseudo-elements in one- and two-colon form, :not() with 6 argument kinds and 4 combinators, each in 5 spellings; TLC "
+             "checks specificity = expected before/after round trip and when attached to a sheet, reparse = first parse, parsed "
+             "structure = source; list histories (append/selectorText, raise and log mode): order, whole-list rejection, move-to-end.",
+        design_ref="DESIGN.md section 5 C16",
+        note="Trusted: TLC, the adapter's spelling function and its projection of Selector.seq into abstract parts. A descendant "
+             "combinator that the DOM records next to a comment/another combinator is collapsed before comparing with the source."),
 }
 PENDING = "check not built yet in this round (see DESIGN.md section 10 build order); no claim is made"
 NOT_APPLICABLE = {}
